@@ -46,7 +46,50 @@ def obj_name(parts):
     return out
 
 
+AGGREGATES = {"sum", "count", "min", "max", "avg", "stddev", "stddev_samp", "stddev_pop", "every", "bool_and", "bool_or", "any_value",
+              "string_agg", "group_concat", "array_agg", "countif", "count_if", "logical_and", "logical_or", "min_by", "max_by"}
+
+
+def _agg_and_bare(proj):
+    """-> (name of an aggregate call outside any window, a column referenced outside every aggregate call) of a projection"""
+    found = {"agg": None, "bare": None}
+
+    def walk(e, in_agg):
+        if isinstance(e, list):
+            for x in e:
+                walk(x, in_agg)
+            return
+        if not isinstance(e, dict):
+            return
+        for k, v in e.items():
+            if k == "Function" and isinstance(v, dict):
+                nm = obj_name(v.get("name") if isinstance(v.get("name"), list) else (v.get("name") or {}).get("0") if isinstance(v.get("name"), dict) else None)
+                fname = (nm[-1] if nm else "").lower()
+                is_agg = fname in AGGREGATES and not v.get("over")
+                if is_agg and not in_agg and found["agg"] is None:
+                    found["agg"] = fname.upper()
+                for kk, vv in v.items():
+                    if kk not in ("name", "over"):
+                        walk(vv, in_agg or is_agg)
+                if v.get("over") and not in_agg:
+                    pass        # partition / order of a window function: plain columns are expected there
+            elif k == "Identifier" and isinstance(v, dict) and "value" in v:
+                if not in_agg and found["bare"] is None and v["value"].lower() not in KEYWORD_IDENTS:
+                    found["bare"] = v["value"]
+            elif k == "CompoundIdentifier" and isinstance(v, list):
+                if not in_agg and found["bare"] is None:
+                    found["bare"] = ".".join(str(ident_value(p)) for p in v)
+            elif k in ("Subquery", "Exists", "InSubquery", "subquery", "data_type", "span", "Value", "TypedString", "alias"):
+                continue
+            else:
+                walk(v, in_agg)
+    walk(proj, False)
+    return found["agg"], found["bare"]
+
+
 class Binder:
+    misplaced = None
+
     def __init__(self, schema=None):
         self.schema = {k.lower(): [c.lower() for c in v] for k, v in (schema or {}).items()} if schema is not None else None
         self.problems = []
@@ -222,6 +265,15 @@ class Binder:
                     aliases.append(a)
                 continue
             out_open = True
+        # root-cause monitor: an aggregate function call (not a window function) next to a plain column
+        # reference in the projection of a SELECT that has no GROUP BY.  The compiler never means that: it is
+        # what is left when an aggregation is evaluated in another query than the one that groups its rows.
+        gb0 = s.get("group_by")
+        grouped = isinstance(gb0, dict) and (("Expressions" in gb0 and gb0["Expressions"] and gb0["Expressions"][0]) or "All" in gb0)
+        if not grouped and self.misplaced is not None:
+            agg, bare = _agg_and_bare(proj)
+            if agg and bare:
+                self.misplaced.append("SELECT without GROUP BY mixes %s(..) with the plain column %s" % (agg, bare))
         for key, where in (("selection", "WHERE"), ("having", "HAVING"), ("qualify", "QUALIFY")):
             if s.get(key) is not None:
                 self.expr(s[key], scope_eff, ctes, extra=aliases if key != "selection" else [], where=where)
@@ -321,10 +373,11 @@ def bind(ast, schema=None):
     """ast: the JSON list of statements from the worker's sqlparse op."""
     b = Binder(schema)
     b.ambiguous = []
+    b.misplaced = []
     if not isinstance(ast, list) or len(ast) != 1 or not isinstance(ast[0], dict) or "Query" not in ast[0]:
         return {"problems": [{"kind": "not_single_query", "detail": "statement is not exactly one query"}], "stats": b.stats}
     try:
         b.query(ast[0]["Query"], {})
     except Exception as ex:   # monitor bug => no verdict from it
-        return {"problems": [], "stats": b.stats, "monitor_error": repr(ex), "ambiguous": []}
-    return {"problems": b.problems, "stats": b.stats, "ambiguous": b.ambiguous}
+        return {"problems": [], "stats": b.stats, "monitor_error": repr(ex), "ambiguous": [], "misplaced_aggregate": []}
+    return {"problems": b.problems, "stats": b.stats, "ambiguous": b.ambiguous, "misplaced_aggregate": b.misplaced}
